@@ -800,19 +800,22 @@ class MaterialIndexer(Indexer):
                     for i, j in other: data[phase_indexer(i)] = j
                 else:
                     self._expand_phases(other._phases)
-                    self.data.copy_like(other.data)
+                    self.empty()
+                    data = self.data
+                    phase_indexer = self._phase_indexer
+                    for i, j in other: data[phase_indexer(i)] = j
             else:
                 self.empty()
                 other_data = other.data
-                data = self.data
                 left_index, right_index = index_overlap(self._chemicals, other._chemicals, [*other_data.nonzero_keys()])
                 if phase_indexer is other_phase_indexer:
-                    data[:, left_index] = other_data[:, right_index]
-                elif phase_indexer.compatible_with(other_phase_indexer):
-                    for i, j in other: data[phase_indexer(i)] += j
+                    self.data[:, left_index] = other_data[:, right_index]
                 else:
-                    self._expand_phases(other._phases)
-                    data[:, left_index] = other_data[:, right_index]
+                    if not phase_indexer.compatible_with(other_phase_indexer):
+                        self._expand_phases(other._phases)
+                        phase_indexer = self._phase_indexer
+                    data = self.data
+                    for i, j in other: data[phase_indexer(i), left_index] = j[right_index]
                     
     
     def _expand_phases(self, other_phases=None):
